@@ -1822,6 +1822,44 @@ def eval_term(t, assignment):
     raise HarnessError(f'pyk: term did not evaluate to a value: {str(r)[:200]}')
 
 
+def eval_on_paths(paths, assignment, term_of, timeout_ms=20000):
+    """Concrete evaluation of a path set at a full input assignment {z3 const: value}: finds the path whose condition is
+    satisfiable there (fresh definitional variables such as isqrt!n / q!n are solved for) and returns (path, value of
+    term_of(path)) as Python values; (None, None) when no path accepts the input."""
+    eqs = []
+    for var, val in assignment.items():
+        if z3.is_bv(var):
+            eqs.append(var == z3.BitVecVal(val, var.size()))
+        elif z3.is_bool(var):
+            eqs.append(var == z3.BoolVal(bool(val)))
+        else:
+            eqs.append(var == z3.IntVal(val))
+    for p in paths:
+        sol = z3.Solver()
+        sol.set('timeout', timeout_ms)
+        sol.add(*eqs)
+        sol.add(*p.pc)
+        r = str(sol.check())
+        if r == 'unknown':
+            raise HarnessError('pyk: could not evaluate a path condition at a concrete input')
+        if r != 'sat':
+            continue
+        t = term_of(p)
+        if t is None:
+            return p, None
+        v = sol.model().eval(t, model_completion=True)
+        if z3.is_bv_value(v):
+            return p, v.as_signed_long()
+        if z3.is_int_value(v):
+            return p, v.as_long()
+        if z3.is_true(v) or z3.is_false(v):
+            return p, z3.is_true(v)
+        if z3.is_fp(v):
+            return p, fp_value(v)
+        raise HarnessError(f'pyk: path value did not evaluate: {v}')
+    return None, None
+
+
 def value_term(v, interp):
     """symbolic value -> z3 term (for eval_term / assertions)"""
     if isinstance(v, (SInt, SFloat, SBool)):
